@@ -30,6 +30,10 @@ class Unmodelled(Exception):
     pass
 
 
+class CopyDiffers(Exception):
+    pass
+
+
 def M(w):
     return (1 << w) - 1
 
@@ -111,6 +115,55 @@ def values(e):
 
 def kind(e):
     return type(e).__name__
+
+
+def canon_read(items):
+    """a MemoryMap.read result up to the grouping of raw bytes (copies may join adjacent raw pieces)"""
+    out = []
+    for t in items:
+        if isinstance(t, (bytes, bytearray)):
+            if out and isinstance(out[-1], bytes):
+                out[-1] = out[-1] + bytes(t)
+            else:
+                out.append(bytes(t))
+        else:
+            out.append(str(t))
+    return [x.hex() if isinstance(x, bytes) else x for x in out]
+
+
+def probes(e):
+    """what the public API answers about an object: whether it prints, and the values of a few
+    unaligned slices (an object keeps denoting the same value, so reading parts of it must keep
+    giving the corresponding parts of that value, whatever was done with it in between)"""
+    out = []
+    try:
+        str(e)
+        out.append("ok")
+    except Exception as ex:
+        out.append("raises-" + type(ex).__name__)
+    w = e.size
+    for lo, hi in ((1, w - 1), (w // 3, w // 3 + max(w // 2, 1)), (0, max(w - 3, 1))):
+        if not (0 <= lo < hi <= w):
+            continue
+        try:
+            out.append((lo, hi, values(e[lo:hi])))
+        except Exception as ex:
+            out.append("raises-" + type(ex).__name__)
+    return out
+
+
+def probes_differ(before, now, vals):
+    """index of the first probe that answered at creation and now raises or gives another value"""
+    for j, (a, b) in enumerate(zip(before, now)):
+        if isinstance(a, str) and a.startswith("raises-"):
+            continue
+        if isinstance(b, str) and b.startswith("raises-"):
+            return j
+        if isinstance(b, tuple) and "?" not in vals and "?" not in b[2]:
+            lo, hi, got = b
+            if got != [(v >> lo) & M(hi - lo) for v in vals]:
+                return j
+    return None
 
 
 def new_leaf(r):
@@ -223,15 +276,40 @@ def step(r, W, maps, mems):
     if k < 0.965:
         mm = merge(maps[0], maps[1])
         return "merge", [v for _, v in mm if hasattr(v, "size")][:2]
-    if r.random() < 0.5:
-        mems[0].write(0x1000 + 4 * r.randrange(8), pick(32) or cst(0, 32))
+    k2 = r.random()
+    if k2 < 0.35:
+        mems[0].write(0x1000 + 4 * r.randrange(8), pick(32) or cst(0, 32), endian=r.choice([1, 1, -1]))
         return "mem-write", []
+    if k2 < 0.5:
+        # a copy of a memory map is the same value: it answers every read like the original
+        m2 = mems[0].copy()
+        for _ in range(6):
+            a, n = 0x1000 + r.randrange(32), r.choice([1, 2, 3, 4, 8])
+            try:
+                x, y = [str(t) for t in mems[0].read(a, n)], [str(t) for t in m2.read(a, n)]
+            except Exception as ex:
+                continue
+            if x != y:
+                raise CopyDiffers("MemoryMap.copy().read(%#x,%d) = %s, the original reads %s" % (a, n, y, x))
+        return "mem-copy-compare", []
     # a store through a symbolic pointer (two possible bases)
     m = r.choice(maps)
     n, w = r.choice(REGS[:2])
     sz = r.choice([8, 16, 32])
     x = pick(sz) or cst(r.getrandbits(sz), sz)
-    m[mem(reg(n, w), sz, disp=r.choice([0, 2, 4]))] = x
+    if r.random() < 0.3:
+        # a copy of a map is the same value: registers and memory read alike (whole and in part)
+        m2 = m.use()
+        qs = [reg(n, w), reg(n, w)[0:8]] + [mem(reg(n, w), s2, disp=d, endian=e2) for s2 in (8, 16, 32) for d in (0, 1, 2, 4) for e2 in (1, -1)]
+        for q in qs:
+            try:
+                x, y = str(m(q)), str(m2(q))
+            except Exception as ex:
+                continue
+            if x != y:
+                raise CopyDiffers("m.use() reads %s as %s, the map itself as %s" % (q, y, x))
+        return "map-copy-compare", []
+    m[mem(reg(n, w), sz, disp=r.choice([0, 2, 4]), endian=r.choice([1, 1, -1]))] = x
     return "map-store-mem", []
 
 
@@ -281,10 +359,15 @@ def main(tier):
         maps = [mapper(), mapper()]
         mems = [MemoryMap()]
         base = [(x, x.size, values(x)) for x in W]
+        pbase = [probes(x) for x in W]
         trace = []
         for t in range(hlen):
             try:
                 name, new = step(r, W, maps, mems)
+            except CopyDiffers as cd:
+                name, new = "copy-compare", []
+                ck.report("C13:copy:%s" % ("memory-map" if "MemoryMap" in str(cd) else "mapper"), "a copy does not behave like the value it was copied from: %s" % cd,
+                          "oracle", "Amoco.Value.Props.memory_maps_are_values", case={"history": trace[-12:], "what": str(cd)[:400]})
             except (ValueError, TypeError, AttributeError, NotImplementedError, IndexError, KeyError, AssertionError) as ex:
                 # an operation that raises is C01/C17's business; the workspace must still be intact
                 name, new = "raises-" + type(ex).__name__, []
@@ -305,13 +388,71 @@ def main(tier):
                               "oracle", "Amoco.Value.Props.operand_preserved", case={"history": trace[-12:], "object_index": idx, "object_now": str(o)[:200]},
                               real=[hex(x) if isinstance(x, int) else x for x in now], expected=[hex(x) if isinstance(x, int) else x for x in vals])
                     base[idx] = (o, o.size, now)       # report once
+                elif kind(o) in ("comp", "slc", "mem", "tst", "op", "uop"):
+                    pn = probes(o)
+                    which = probes_differ(pbase[idx], pn, vals)
+                    if which is not None:
+                        ck.report("C13:%s:%s:api-%s" % (name, kind(o), "raises" if isinstance(pn[which], str) else "value"),
+                                  "after operation %s a pre-existing %s object no longer answers as the value it denotes: %s now gives %s" % (
+                                      name, kind(o), "str()" if which == 0 else "slice [%d:%d]" % pbase[idx][which][:2], str(pn[which])[:100]),
+                                  "oracle", "Amoco.Value.Props.operand_preserved", case={"history": trace[-12:], "object_index": idx, "object_now": repr(o)[:200]},
+                                  real=repr(pn[which])[:300], expected=repr(pbase[idx][which])[:300])
+                        pbase[idx] = pn
             for x in new:
                 if isinstance(x, exp) and not x._is_top and 0 < x.size <= 128:
                     W.append(x)
                     v = values(x)
                     base.append((x, x.size, v))
+                    pbase.append(probes(x))
                     ck.count("object." + kind(x) + (".unmodelled" if "?" in v else ""))
             ck.case((h, t, name), nontrivial=not name.startswith(("leaf", "noop")))
+        # ---- copies are the same value -----------------------------------------------------------------
+        for k in range(3):
+            x = r.choice([y for y in W if y.size == 32 and not y._is_cst] or [reg("a", 32)])
+            mems[0].write(0x1000 + 4 * r.randrange(8), x, endian=r.choice([1, -1]))
+        m2 = mems[0].copy()
+        m3 = pickle.loads(pickle.dumps(mems[0], pickle.HIGHEST_PROTOCOL))
+        done = False
+        for a in range(0x1000, 0x1020):
+            for n in (1, 2, 3, 4):
+                try:
+                    x = canon_read(mems[0].read(a, n))
+                except Exception:
+                    continue
+                for what, mm in (("copy()", m2), ("pickle round-trip", m3)):
+                    try:
+                        y = canon_read(mm.read(a, n))
+                    except Exception as ex:
+                        y = "raises-" + type(ex).__name__
+                    ck.count("copy.memory-read")
+                    if x != y and not done:
+                        done = True
+                        ck.report("C13:copy:memory-map:%s" % what.split("(")[0].split(" ")[0], "MemoryMap %s reads %d bytes at %#x as %s, the original as %s" % (what, n, a, y, x),
+                                  "oracle", "Amoco.Value.Props.memory_maps_are_values", case={"history": trace[-12:], "address": a, "length": n},
+                                  real=y, expected=x)
+        for mi, m in enumerate(maps):
+            try:
+                mu = m.use()
+            except Exception:
+                continue
+            done = False
+            for n, w in REGS[:2]:
+                qs = [reg(n, w), reg(n, w)[0:8]] + [mem(reg(n, w), s2, disp=d, endian=e2) for s2 in (8, 16, 32) for d in (0, 1, 2, 4) for e2 in (1, -1)]
+                for q in qs:
+                    try:
+                        x = str(m(q))
+                    except Exception:
+                        continue
+                    try:
+                        y = str(mu(q))
+                    except Exception as ex:
+                        y = "raises-" + type(ex).__name__
+                    ck.count("copy.map-read")
+                    if x != y and not done:
+                        done = True
+                        ck.report("C13:copy:mapper", "m.use() reads %s as %s, the map itself as %s" % (q, y, x),
+                                  "oracle", "Amoco.Value.Props.memory_maps_are_values", case={"history": trace[-12:], "location": str(q)},
+                                  real=y, expected=x)
         # ---- pickle half ------------------------------------------------------------------------------
         for o in r.sample(W, min(6, len(W))) + maps + mems:
             asp = pickle_ok(o)
